@@ -28,8 +28,16 @@ def main():
             rec = json.load(f)
         if hasattr(mod, "replay"):
             return mod.replay(rec)
-        print(json.dumps(rec, indent=1))
-        return 0
+        # generic replay: the recorded obligation is generated again from the current /repo source and decided again (exit 1 + VIOLATION line if it still fails);
+        # the record itself (verifier output, counterexample, native replay) is printed first.  The evidence file is not touched.
+        print(json.dumps({k: rec.get(k) for k in ("property", "obligation", "clause", "verifier_output", "counterexample", "native_replay")}, indent=1, default=str))
+        spec = mod.build(rec.get("tier_run", a.tier) if rec.get("tier_run") in ("quick", "thorough") else "thorough", rec.get("seed", seed))
+        obs = [o for o in spec.pop("obs") if o.id == rec.get("obligation")]
+        if not obs:
+            print(f"UNDECIDED property={a.prop} obligation={rec.get('obligation')} reason=the obligation is no longer generated")
+            return 2
+        spec["min_obligations"] = 0
+        return core.run_property(a.prop, obs, tier=a.tier, seed=rec.get("seed", seed), jobs=1, write_evidence=False, **spec)
     try:
         spec = mod.build(a.tier, seed)
     except core.Unsupported as e:
